@@ -23,6 +23,7 @@ package tally
 import (
 	"bytes"
 	"sync"
+	"unicode/utf8"
 )
 
 var (
@@ -146,13 +147,21 @@ func (c *ValidCharacters) sanitizeFn(repChar rune) SanitizeFn {
 		for idx, ch := range value {
 			// first check if the provided character is valid
 			validCurr := false
-			for i := 0; !validCurr && i < len(c.Ranges); i++ {
+			// n.b. A byte that is not valid UTF-8 is yielded as utf8.RuneError
+			//      (U+FFFD) of width 1; it is never valid, even when U+FFFD
+			//      itself is an allowed character.
+			invalidByte := false
+			if ch == utf8.RuneError {
+				_, width := utf8.DecodeRuneInString(value[idx:])
+				invalidByte = width == 1
+			}
+			for i := 0; !invalidByte && !validCurr && i < len(c.Ranges); i++ {
 				if ch >= c.Ranges[i][0] && ch <= c.Ranges[i][1] {
 					validCurr = true
 					break
 				}
 			}
-			for i := 0; !validCurr && i < len(c.Characters); i++ {
+			for i := 0; !invalidByte && !validCurr && i < len(c.Characters); i++ {
 				if c.Characters[i] == ch {
 					validCurr = true
 					break
